@@ -232,10 +232,10 @@ Proof. intro H. induction l as [|x r IH]; [reflexivity|]. simpl. rewrite H, IH. 
 
 Lemma guards_fixed : forall c, v_guards (check fx_all c) = [].
 Proof.
-  intros [m conf rule exp now dmax o | b cachable h dflt now dmax tget o_nsets o_set o_hit | b ops
+  intros [m conf rule exp now dmax o | b cachable h dflt now dmax bdelay tget o_nsets o_set o_hit | b ops
          | b [m conf rule | dflt] slack xsets evs obs | b m slack xsets evs obs | ]; simpl; unfold guards; simpl.
   - unfold guard_F1, guard_F3. simpl. reflexivity.
-  - unfold guard_F4. simpl. reflexivity.
+  - reflexivity.
   - reflexivity.
   - rewrite existsb_const_false by (intros [[t k] fr]; unfold guard_F1; reflexivity).
     unfold guard_F3. simpl. reflexivity.
@@ -253,7 +253,7 @@ Qed.
 Definition wf_case (f : fixes) (c : case) : Prop :=
   match c with
   | CExec m _ _ exp _ dmax _ => 0 <= dmax <= max_delay /\ wf_exec m exp
-  | CHttp _ _ h _ now dmax _ _ _ _ => wf_http h now dmax
+  | CHttp _ _ h _ now dmax bdelay _ _ _ _ => wf_http h now dmax bdelay
   | CCache _ _ => True
   | CHist _ hk slack _ evs _ => hist_wf f hk slack evs
   | CMix _ _ _ _ _ _ => False   (* mixed histories: no soundness theorem for the evaluator (see C10/Mixed.v for the model) *)
@@ -264,7 +264,7 @@ Theorem check_sound : forall f c,
   wf_case f c ->
   v_corr (check f c) = true -> v_guards (check f c) = [] -> v_prop (check f c) = true.
 Proof.
-  intros f [m conf rule exp now dmax o | b cachable h dflt now dmax tget o_nsets o_set o_hit | b ops
+  intros f [m conf rule exp now dmax o | b cachable h dflt now dmax bdelay tget o_nsets o_set o_hit | b ops
            | b hk slack xsets evs obs | b m slack xsets evs obs | ] Hwf.
   - destruct Hwf. apply check_sound_exec; assumption.
   - apply check_sound_http. exact Hwf.
